@@ -12,7 +12,7 @@ ID = 'C15'
 CASE_TYPE = 'C15.case'
 EXTRA_IMPORTS = 'From PJ Require Import Model.Registry.\n'
 RULE = ('registration histories of 1..3 (quick) / 1..5 (thorough) operations over {add, add with explicit name, add_methods(Method), '
-        'add_methods(plain function), view with / without prefix (a fresh view class or one already registered elsewhere in the history; a member called `show` is inherited from one shared base view), function objects may be registered more than once, merge} on registries with prefix in {none, "", "a", "a.b"}, merged up to '
+        'add_methods(plain function), view with / without prefix (a fresh view class or one already registered elsewhere in the history; a member called `show` is inherited from one shared base view), function objects and Method objects may be registered more than once, a view may be derived from a view registered earlier, merge} on registries with prefix in {none, "", "a", "a.b"}, merged up to '
         '3 levels deep, attached to either dispatcher (add_methods(registry) / add / view); small name pools so that collisions and '
         're-registrations occur; probed by dispatching a request for every registered name, every name one prefix segment away, the bare '
         'function and member names, private and non-callable member names. distinct = distinct (history, dispatcher kind); non-trivial = '
@@ -110,10 +110,32 @@ def generate(seed, tier):
             for second in (['method', 0, 'f', None], ['merge', ['b', [['method', 0, 'f', None]]]], ['merge', [None, [['plain', 0, 'f']]]],
                            ['add', 0, 'f', None]):
                 cases.append({'hist': [None, [first, second]], 'async': is_async})
+    for is_async in (False, True):
+        # the same Method object added to two prefixed registries / twice to one
+        for pa, pb in (('a', 'a.b'), ('a', None), (None, 'b'), ('a', 'a')):
+            cases.append({'hist': [None, [['merge', [pa, [['method', 0, 'f', 'ping']]]], ['merge', [pb, [['method', 0, 'f', 'ping']]]]]], 'async': is_async})
+            cases.append({'hist': [None, [['merge', [pa, [['method', 0, 'f', None]]]], ['method', 0, 'f', None], ['merge', [pb, [['method', 0, 'f', None]]]]]], 'async': is_async})
+        # a base view registered first, then a view DERIVED from it that adds public members (and the other way round)
+        base = [['ping', True, 1], ['show', True, 2]]
+        derived = sorted(base + [['echo', True, 3], ['attr', False, 4], ['_hid', True, 5]])
+        for first, second in ((base, derived), (derived, base)):
+            cases.append({'hist': [None, [['merge', ['api', [['view', 'base' if first is base else 'ext', first],
+                                                             ['view', 'ext' if first is base else 'base', second]]]]]], 'async': is_async})
+            cases.append({'hist': [None, [['view', None, first], ['merge', ['x', [['view', 'v', second]]]]]], 'async': is_async})
     return cases
 
 
 _fns = {}
+_methods = {}
+
+
+def mkmethod(fid, fname, xname, is_async):
+    # one Method OBJECT per (function, explicit name) within an observation: registering it twice hands the same object over twice
+    key = (fid, fname, xname, is_async)
+    if key not in _methods:
+        _methods[key] = Method(mkfn(fid, fname, is_async), name=xname)
+    return _methods[key]
+
 
 
 def mkfn(fid, name, is_async):
@@ -137,7 +159,15 @@ def mkview(members, is_async):
     # one class object per distinct member list within an observation: a repeated list re-registers the same class
     key = json.dumps([members, is_async])
     if key not in _views:
-        _views[key] = mkview_new(members, is_async)
+        # a member list that strictly extends the member list of a class made earlier in this observation becomes a class
+        # DERIVED from that one (defining only the additional members)
+        parent = None
+        for k2, cls in _views.items():
+            m2, a2 = json.loads(k2)
+            if a2 == is_async and len(m2) < len(members) and all(x in members for x in m2):
+                if parent is None or len(m2) > len(parent[0]):
+                    parent = (m2, cls)
+        _views[key] = mkview_new(members, is_async, parent)
     return _views[key]
 
 
@@ -154,9 +184,11 @@ def base_view(is_async):
     return _bases[is_async]
 
 
-def mkview_new(members, is_async):
+def mkview_new(members, is_async, parent=None):
     body = ''
     inherit = None
+    if parent is not None:
+        members = [m for m in members if m not in parent[0]]
     for name, callable_, fid in members:
         if callable_ and name == 'show':
             inherit = fid
@@ -166,7 +198,12 @@ def mkview_new(members, is_async):
         else:
             body += '    %s = %d\n' % (name, fid)
     ns = {'ViewMixin': ViewMixin, 'Base': base_view(is_async)}
-    exec('class V(%s):\n' % ('Base' if inherit is not None else 'ViewMixin') + body, ns)
+    if parent is not None:
+        ns['Parent'] = parent[1]
+        bases = 'Parent, Base' if (inherit is not None and not issubclass(parent[1], ns['Base'])) else 'Parent'
+        exec('class V(%s):\n' % bases + (body or '    pass\n'), ns)
+        return ns['V']
+    exec('class V(%s):\n' % ('Base' if inherit is not None else 'ViewMixin') + (body or '    pass\n'), ns)
     return ns['V']
 
 
@@ -182,7 +219,7 @@ def apply_ops(target, ops, is_async, top=False):
         if op[0] == 'add':
             target.add(mkfn(op[1], op[2], is_async), name=op[3]) if not top else target.add(mkfn(op[1], op[2], is_async), op[3])
         elif op[0] == 'method':
-            target.add_methods(Method(mkfn(op[1], op[2], is_async), name=op[3]))
+            target.add_methods(mkmethod(op[1], op[2], op[3], is_async))
         elif op[0] == 'plain':
             target.add_methods(mkfn(op[1], op[2], is_async))
         elif op[0] == 'view':
@@ -202,6 +239,7 @@ def observe(case):
     is_async = case['async']
     _views.clear()
     _fns.clear()
+    _methods.clear()
     disp = (AsyncDispatcher if is_async else Dispatcher)()
     apply_ops(disp, case['hist'][1], is_async, top=True)
     keys = sorted(disp.registry.keys())
